@@ -64,10 +64,11 @@ Definition init (c : cfg) (maze : list (list Z)) : state * tstep :=
   let ls := repeat (0, 0) (Z.to_nat (nag c)) in
   (mkS g ls (compute_mask (rows c) (cols c) g ls) 0, restart 1).
 
-(* env.reset on the state returned by an ARBITRARY Generator subclass: `agents_locations = jnp.zeros(...)` is what the
-   mask is computed from, not the generator's own agents_locations (the shipped RandomGenerator puts agents at (0,0)) *)
+(* env.reset on the state returned by an ARBITRARY Generator subclass: the mask is computed from the generator's own
+   agents_locations (before the fix "Cleaner reset computed the action mask for agents at (0,0)" it was computed for
+   agents at (0,0); the shipped RandomGenerator puts agents at (0,0), so both agree there) *)
 Definition reset_of (c : cfg) (g : list (list Z)) (ls : list (Z * Z)) : state * tstep :=
-  (mkS g ls (compute_mask (rows c) (cols c) g (repeat (0, 0) (Z.to_nat (nag c)))) 0, restart 1).
+  (mkS g ls (compute_mask (rows c) (cols c) g ls) 0, restart 1).
 
 (* _observation_from_state: plain copies *)
 Definition observe (s : state) : list (list Z) * list (Z * Z) * list (list bool) * Z :=
